@@ -375,6 +375,12 @@ func VH_C18_FifoAux(p []int) {
 	verifAssert(vhSame(v, 7), "aux-value")
 	got.Set("z", 1)
 	verifAssert(aux.Len() == 2, "aux-same-map")
+	empty := make(Auxiliary)
+	s.SetAuxiliary(empty)
+	s.Auxiliary().Set("late", 1)
+	verifAssert(empty.Len() == 1, "aux-empty-map-kept-by-identity")
+	s.SetAuxiliary(nil)
+	verifAssert(s.Auxiliary() != nil && s.Auxiliary().Len() == 0, "aux-nil-allocates")
 	s.SetAuxiliary()
 	verifAssert(s.Auxiliary() != nil, "aux-default-alloc")
 	verifAssert(s.Auxiliary().Len() == 0, "aux-default-empty")
